@@ -28,9 +28,9 @@ ra_all!(q, q, R_STRING, 8, 9, 9);
 ra_all!(q, q, R_FASTSTR, 8, 9, 9);
 ra_all!(q, q, R_BYTES, 8, 9, 9);
 ra_all!(q, t, R_BYTES_VEC, 8, 9, 9);
-ra_all!(q, q, R_FIELD, 5, 6, 6);
-ra_all!(q, q, R_LIST, 7, 8, 8);
+ra_all!(t, q, R_FIELD, 5, 6, 6);
+ra_all!(t, q, R_LIST, 7, 8, 8);
 ra_all!(t, t, R_SET, 7, 8, 8);
-ra_all!(q, q, R_MAP, 8, 9, 9);
-ra_all!(q, t, R_MESSAGE, 12, 13, 13);
+ra_all!(t, q, R_MAP, 8, 9, 9);
+ra_all!(t, t, R_MESSAGE, 12, 13, 13);
 ra_all!(t, t, R_STRUCT_BEGIN_END, 2, 4, 4);
